@@ -76,6 +76,7 @@ fn main() {
             f.flush().unwrap();
         }
         "replay" => {
+            start_watchdog("REPLAY".to_string());
             let text = std::fs::read_to_string(&args[2]).unwrap();
             for line in text.lines() {
                 if line.is_empty() || line.starts_with('#') {
